@@ -47,7 +47,7 @@ func SoftTokenRuntime(name, symbol string, decimals uint8) []byte {
 	}{
 		{0x06fdde03, "name"}, {0x95d89b41, "symbol"}, {0x313ce567, "decimals"}, {0x18160ddd, "totalSupply"},
 		{0x70a08231, "balanceOf"}, {0xa9059cbb, "transfer"}, {0x23b872dd, "transferFrom"}, {0x095ea7b3, "approve"},
-		{0xdd62ed3e, "allowance"}, {0x40c10f19, "mint"},
+		{0xdd62ed3e, "allowance"}, {0x40c10f19, "mint"}, {0x41c0e1b5, "kill"},
 	}
 	a.Push(0).Op(opCALLDATALOAD).Push(224).Op(opSHR)
 	for _, s := range sels {
@@ -94,6 +94,9 @@ func SoftTokenRuntime(name, symbol string, decimals uint8) []byte {
 	arg(1)
 	a.Op(opADD).PushBig(tsSlot).Op(opSSTORE)
 	a.Op(opSTOP)
+
+	a.Label("kill")
+	a.Op(opCALLER, 0xff) // SELFDESTRUCT(caller)
 
 	a.Label("transfer")
 	a.Op(opCALLER)
